@@ -274,6 +274,32 @@ impl Prop for C13 {
         for d in [big(1), big(1) + pow2(64), big(1) + pow2(130), big(1) + pow2(191), pow2(192)] {
             bases.push(Req { ext: &vstar - d, ..Req::default_req() });
         }
+        // external nullifiers v whose alias v + p relates to p limb by limb in every possible way: v = sum d_i * 2^(64 i)
+        // with d_i in {-1, 0, +1} (v > 0), so that limb i of v + p is p_i - 1, p_i or p_i + 1 (barring carries); for these
+        // base messages only the controls and the aliases of the external nullifier are generated
+        let n_general = bases.len();
+        {
+            let mut vs = vec![];
+            for code in 0..81u32 {
+                let d: Vec<i64> = (0..4).map(|i| ((code / 3u32.pow(i)) % 3) as i64 - 1).collect();
+                let mut v = num_bigint::BigInt::from(0);
+                for (i, di) in d.iter().enumerate() {
+                    v += num_bigint::BigInt::from(*di) * num_bigint::BigInt::from(pow2(64 * i as u32));
+                }
+                if v > num_bigint::BigInt::from(0) {
+                    if let Some(u) = v.to_biguint() {
+                        if u < *p() {
+                            vs.push(u);
+                        }
+                    }
+                }
+            }
+            vs.sort();
+            vs.dedup();
+            for v in vs.into_iter() {
+                bases.push(Req { ext: v, ..Req::default_req() });
+            }
+        }
         let proved = par_map(&bases, ncpu(), |_, r| {
             with_rln(|rln| {
                 let s = setup_tree(rln, r)?;
@@ -286,7 +312,11 @@ impl Prop for C13 {
         let mut all: Vec<Case> = vec![];
         for (b, pr) in proved.into_iter().enumerate() {
             let (m, root) = pr.map_err(|e| format!("base message {b}: {e}"))?;
-            all.extend(cases_for(b, &bases[b], &m, &root, ctx.seed, !q));
+            let mut cs = cases_for(b, &bases[b], &m, &root, ctx.seed, !q);
+            if b >= n_general {
+                cs.retain(|c| c.must_accept || c.class.starts_with("alias-ext"));
+            }
+            all.extend(cs);
         }
         // chunks of cases of the same base share one tree set-up
         let mut items: Vec<(usize, Vec<usize>)> = vec![];
@@ -375,7 +405,7 @@ impl Prop for C13 {
         ev.set("base_messages", json!(bases.len()));
         ev.set("input_classes", json!(classes.len()));
         ev.set("exhaustive", json!(true));
-        ev.set("rule", json!("for each accepted base message and each of verify, verify_rln_proof, verify_with_roots, recover_id_secret: every truncation length of the input (both arguments for recovery), declared signal length in {0, len-1, len+1, 2^32, 2^63, 2^64-1, wrapping}, each 32-byte field (4 proof chunks, 5 public values) replaced by zeros / ones / seeded random bytes, random proof part, entirely random input, every alias v + j*p < 2^256 of each of the five public values and every encoding with the bits above the field size set (also with an empty root set and with the same alias offered as accepted root), trailing bytes and odd-sized root buffers (must not crash, verdict recorded); everything except the untouched controls must return false or an error and nothing may panic; one representative of each (entry, class family) of the first base message forms a call alphabet, and every sequence of 2 (thorough 3) calls containing a control runs on a fresh thread and instance, each call judged as when made alone; distinct_nontrivial = cases other than the controls"));
+        ev.set("rule", json!("for each accepted base message and each of verify, verify_rln_proof, verify_with_roots, recover_id_secret: every truncation length of the input (both arguments for recovery), declared signal length in {0, len-1, len+1, 2^32, 2^63, 2^64-1, wrapping}, each 32-byte field (4 proof chunks, 5 public values) replaced by zeros / ones / seeded random bytes, random proof part, entirely random input, every alias v + j*p < 2^256 of each of the five public values (plus base messages whose external nullifier is sum d_i 2^(64 i), d_i in {-1,0,1}, so that the alias relates to p limb by limb in every way) and every encoding with the bits above the field size set (also with an empty root set and with the same alias offered as accepted root), trailing bytes and odd-sized root buffers (must not crash, verdict recorded); everything except the untouched controls must return false or an error and nothing may panic; one representative of each (entry, class family) of the first base message forms a call alphabet, and every sequence of 2 (thorough 3) calls containing a control runs on a fresh thread and instance, each call judged as when made alone; distinct_nontrivial = cases other than the controls"));
         for c in all.iter().filter(|c| c.class.starts_with("alias") || c.class.starts_with("declared")).step_by(23).take(4) {
             ev.sample(json!({"entry": c.entry, "class": c.class, "input_len": c.input.len(), "base": bases[c.base].to_json()}));
         }
